@@ -1341,3 +1341,49 @@ func BadDoublePutLoop(src io.Reader, pw *io.PipeWriter, process procFn, size int
 	segPool.Put(bp)
 	pw.Close()
 }
+
+// ---- over-read bytes of the header phase ---------------------------------------
+
+// GoodPushBackHeader puts back whatever was read beyond the line.
+func GoodPushBackHeader(in *io.Reader) (line []byte, err error) {
+	buf := make([]byte, 512)
+	n, nn, end := 0, 0, -1
+	for end < 0 && err == nil {
+		nn, err = (*in).Read(buf[n:])
+		n += nn
+		end = bytes.IndexByte(buf[:n], '\n')
+	}
+	if end < 0 {
+		return nil, errors.New("header not found")
+	}
+	if err != nil && !errors.Is(err, io.EOF) {
+		return nil, err
+	}
+	start := end + 1
+	if n-start > 0 {
+		*in = io.MultiReader(bytes.NewReader(bytes.Clone(buf[start:n])), *in)
+	}
+	return bytes.Clone(buf[:end]), nil
+}
+
+// BadPushBackLastReadHeader decides on the size of the last read whether anything is left.
+func BadPushBackLastReadHeader(in *io.Reader) (line []byte, err error) {
+	buf := make([]byte, 512)
+	n, nn, end := 0, 0, -1
+	for end < 0 && err == nil {
+		nn, err = (*in).Read(buf[n:])
+		n += nn
+		end = bytes.IndexByte(buf[:n], '\n')
+	}
+	if end < 0 {
+		return nil, errors.New("header not found")
+	}
+	if err != nil && !errors.Is(err, io.EOF) {
+		return nil, err
+	}
+	start := end + 1
+	if nn > start {
+		*in = io.MultiReader(bytes.NewReader(bytes.Clone(buf[start:n])), *in)
+	}
+	return bytes.Clone(buf[:end]), nil
+}
